@@ -216,6 +216,19 @@ theorem py_mapE_pure {α β : Type} (g : α → β) (l : List α) : OQ.Py.mapE (
   | nil => rfl
   | cons x xs ih => simp only [OQ.Py.mapE, ih]; rfl
 
+/-- a generator expression whose element is the loop variable itself – `int(count) for count in …` over Python ints, where the
+    translator renders `int` of an `Int` as the identity – collects the list it iterates over and never raises.  With it the two
+    renderings of `num_measurements` in `get_expectation_value_from_frequencies` (`sum(d.values())` and
+    `sum(int(count) for count in d.values())`) are the same term after one simplification step. -/
+theorem py_mapE_ok_id {α : Type} (l : List α) : OQ.Py.mapE (fun x => Except.ok x) l = .ok l := by
+  have h := py_mapE_pure (fun x : α => x) l
+  simpa using h
+
+/-- the two generated forms of the total: `let n := sum vals; k n` and `bind (mapE ok vals) (fun t => let n := sum t; k n)` -/
+theorem py_sum_genexp_id {β : Type} (vals : List Int) (k : Int → Except Exc4 β) :
+    Except.bind (OQ.Py.mapE (fun (count : Int) => Except.ok count) vals) (fun (t : List Int) => k (OQ.Py.sum t)) = k (OQ.Py.sum vals) := by
+  rw [py_mapE_ok_id]; rfl
+
 /-! ### the n × n table as a function of its indices -/
 def tab (n : Nat) (f : Nat → Nat → Rat) : Arr2 Rat := ⟨n, (List.range n).map (fun a => (List.range n).map (fun b => f a b))⟩
 
